@@ -2,6 +2,7 @@ package c14
 
 import (
 	"fmt"
+	"strings"
 
 	"verifharness/hx"
 )
@@ -68,15 +69,49 @@ func (sc scale) apply(r *hx.Rand, es []rawEdge) []rawEdge {
 }
 
 func graphOps(kind string, n int, es []rawEdge) []string {
-	ops := []string{fmt.Sprintf("graph %s %d", kind, n)}
+	return graphOpsCtor(kind, n, es, 0)
+}
+
+// graphLine: NewX(n, es…) — the edges are the constructor's edge list
+func graphLine(kind string, n int, es []rawEdge) string {
+	var b strings.Builder
+	fmt.Fprintf(&b, "graph %s %d", kind, n)
 	for _, e := range es {
 		if weighted(kind) {
-			ops = append(ops, fmt.Sprintf("edge %d %d %d", e.u, e.v, e.w))
+			fmt.Fprintf(&b, " %d %d %d", e.u, e.v, e.w)
 		} else {
-			ops = append(ops, fmt.Sprintf("edge %d %d", e.u, e.v))
+			fmt.Fprintf(&b, " %d %d", e.u, e.v)
 		}
 	}
+	return b.String()
+}
+
+// newLine: a further object of the same kind, NewX(n, es…)
+func newLine(kind string, n int, es []rawEdge) string {
+	return "new" + strings.TrimPrefix(graphLine(kind, n, es), "graph "+kind)
+}
+
+// graphOpsCtor: the first k edges go to the constructor, the others are added with AddEdge afterwards
+func graphOpsCtor(kind string, n int, es []rawEdge, k int) []string {
+	if k > len(es) {
+		k = len(es)
+	}
+	ops := []string{graphLine(kind, n, es[:k])}
+	for _, e := range es[k:] {
+		ops = append(ops, edgeLine(kind, e))
+	}
 	return ops
+}
+
+// ctorSplit: how many of m edges the constructor gets — none, all, or any number in between
+func ctorSplit(r *hx.Rand, m int) int {
+	switch r.Intn(4) {
+	case 0:
+		return 0
+	case 1:
+		return m
+	}
+	return r.Range(0, m)
 }
 
 // every query that applies to the kind, every source (and the two nearest invalid ones)
@@ -323,7 +358,7 @@ func randomCase(r *hx.Rand) (string, hx.Case) {
 	es, shape := randomEdges(r, kind, n)
 	sc := pickScale(r, kind)
 	es = sc.apply(r, es)
-	ops := graphOps(kind, n, es)
+	ops := graphOpsCtor(kind, n, es, ctorSplit(r, len(es)))
 	if n <= 9 {
 		ops = append(ops, allQueries(kind, n, r.Chance(1, 4))...)
 	} else {
@@ -424,6 +459,141 @@ func randomQuery(r *hx.Rand, kind string, n int) string {
 	}
 }
 
+// keeper tracks the result objects a generated case holds (`keep` lines), so that `ask` lines can name them
+type keeper struct {
+	n   int   // results kept so far (0 … n-1)
+	sel []int // those that are a *Paths or a *ShortestPathTree (they take `ask <k> <v>`)
+}
+
+// keepOp: `keep <call>` for a call the kind has; every result object the package hands out comes up
+func (kp *keeper) keepOp(r *hx.Rand, kind string, n int) string {
+	vtx := func() int {
+		if n == 0 || r.Chance(1, 12) {
+			return hx.Pick(r, []int{-1, n, n + 3})
+		}
+		return r.Intn(n)
+	}
+	calls := []string{"paths", "paths", "paths", "orders", "adjof"}
+	switch kind {
+	case "directed":
+		calls = append(calls, "scc", "cycle", "topo")
+	case "undirected":
+		calls = append(calls, "cc", "cc", "paths")
+	case "wdirected":
+		calls = append(calls, "scc")
+		if n > 0 {
+			calls = append(calls, "spt", "spt")
+		}
+	case "wundirected":
+		calls = append(calls, "cc", "mst", "mst")
+	}
+	call := hx.Pick(r, calls)
+	line := "keep " + call
+	switch call {
+	case "paths":
+		line = fmt.Sprintf("keep paths %s %d", hx.Pick(r, strats), vtx())
+		kp.sel = append(kp.sel, kp.n)
+	case "orders":
+		line = "keep orders " + hx.Pick(r, strats)
+	case "adjof":
+		line = fmt.Sprintf("keep adjof %d", vtx())
+	case "spt":
+		line = fmt.Sprintf("keep spt %d", r.Intn(n))
+		kp.sel = append(kp.sel, kp.n)
+	}
+	kp.n++
+	return line
+}
+
+// askOp: read one of the results held ("" if there is none): everything it can be asked, or one To(v)/PathTo(v)
+func (kp *keeper) askOp(r *hx.Rand, n int) string {
+	if kp.n == 0 {
+		return ""
+	}
+	if n > 0 && len(kp.sel) > 0 && r.Chance(1, 3) {
+		return fmt.Sprintf("ask %d %d", hx.Pick(r, kp.sel), r.Intn(n))
+	}
+	k := r.Intn(kp.n)
+	if r.Chance(1, 3) {
+		k = kp.n - 1 - r.Intn((kp.n+1)/2) // the recent ones
+	}
+	return fmt.Sprintf("ask %d", k)
+}
+
+// askAll: every result held is read once more
+func (kp *keeper) askAll(r *hx.Rand) []string {
+	var ops []string
+	up := r.Bool()
+	for k := 0; k < kp.n; k++ {
+		i := k
+		if !up {
+			i = kp.n - 1 - k
+		}
+		ops = append(ops, fmt.Sprintf("ask %d", i))
+	}
+	return ops
+}
+
+// keptCase: result objects outlive the call that made them.  The graph is built by NewX(n, edges…) and AddEdge;
+// then, in several rounds: results are kept (every kind of result object, several sources and strategies), something
+// else happens on the same graph or another one (AddEdge, other traversals and algorithms, Reverse() kept as an
+// object and extended), and results old and new are read — some more than once; at the end all of them again.
+func keptCase(r *hx.Rand) (string, hx.Case) {
+	kind := hx.Pick(r, kinds)
+	n := r.Range(2, 7)
+	if r.Chance(1, 15) {
+		n = r.Range(0, 1)
+	}
+	es, _ := randomEdges(r, kind, n)
+	sc := pickScale(r, kind)
+	es = sc.apply(r, es)
+	ops := graphOpsCtor(kind, n, es, ctorSplit(r, len(es)))
+	directed := kind == "directed" || kind == "wdirected"
+	wmax := hx.Pick(r, []int{1, 3, 9})
+	kp := &keeper{}
+	nobj := 1
+	for round, rounds := 0, r.Range(2, 4); round < rounds; round++ {
+		for c := r.Range(1, 4); c > 0; c-- {
+			ops = append(ops, kp.keepOp(r, kind, n))
+		}
+		for c := r.Range(0, 3); c > 0; c-- {
+			if r.Chance(1, 3) && n > 0 {
+				e := rawEdge{r.Intn(n), r.Intn(n), r.Range(0, wmax)}
+				ops = append(ops, edgeLine(kind, sc.apply(r, []rawEdge{e})[0]))
+			} else {
+				ops = append(ops, randomQuery(r, kind, n))
+			}
+		}
+		if directed && nobj < 3 && r.Chance(1, 4) {
+			ops = append(ops, "mkrev")
+			nobj++
+		}
+		if nobj < 3 && r.Chance(1, 4) {
+			// an unrelated graph of the same type, built from some of the same edges
+			var sub []rawEdge
+			for _, e := range es {
+				if r.Bool() {
+					sub = append(sub, e)
+				}
+			}
+			ops = append(ops, newLine(kind, n, sub))
+			nobj++
+		}
+		if nobj > 1 && r.Chance(1, 2) {
+			ops = append(ops, fmt.Sprintf("use %d", r.Intn(nobj)))
+		}
+		for c := r.Range(1, 4); c > 0; c-- {
+			ops = append(ops, kp.askOp(r, n))
+		}
+	}
+	ops = append(ops, kp.askAll(r)...)
+	if r.Chance(1, 10) && n > 0 && len(kp.sel) > 0 {
+		// To(v) / PathTo(v) of a kept result with a target outside the graph: panics, the case ends
+		ops = append(ops, fmt.Sprintf("ask %d %d", hx.Pick(r, kp.sel), hx.Pick(r, []int{-1, n, n + 2})))
+	}
+	return kind, hx.Case{Header: sc.header(kind, n, "kept"), Ops: ops}
+}
+
 // historyCase: a graph object used the way an incremental client uses it — edges and queries interleaved in
 // several rounds on the same object; for the directed kinds Reverse() results are kept as further objects,
 // which get edges and queries of their own while the original keeps changing.
@@ -453,7 +623,8 @@ func historyCase(r *hx.Rand) (string, hx.Case) {
 		}
 		return rawEdge{v(), v(), w}
 	}
-	ops := []string{fmt.Sprintf("graph %s %d", kind, n)}
+	var ops []string
+	kp := &keeper{}
 	nobj := 1
 	rounds := r.Range(2, 6)
 	for round := 0; round < rounds; round++ {
@@ -465,14 +636,36 @@ func historyCase(r *hx.Rand) (string, hx.Case) {
 		for k := 0; k < ne; k++ {
 			es = append(es, oneEdge())
 		}
-		for _, e := range sc.apply(r, es) {
-			ops = append(ops, edgeLine(kind, e))
+		es = sc.apply(r, es)
+		if round == 0 {
+			// the object is built by NewX(n, edges…) with some of the first edges (none … all), the others and
+			// those of the later rounds are added with AddEdge
+			ops = graphOpsCtor(kind, n, es, ctorSplit(r, len(es)))
+		} else {
+			for _, e := range es {
+				ops = append(ops, edgeLine(kind, e))
+			}
 		}
 		for k := r.Range(1, 4); k > 0; k-- {
-			ops = append(ops, randomQuery(r, kind, n))
+			switch c := r.Intn(8); {
+			case c == 0:
+				ops = append(ops, kp.keepOp(r, kind, n))
+			case c == 1 && kp.n > 0:
+				ops = append(ops, kp.askOp(r, n))
+			default:
+				ops = append(ops, randomQuery(r, kind, n))
+			}
 		}
 		if directed && nobj < 4 && r.Chance(1, 3) {
 			ops = append(ops, "mkrev")
+			nobj++
+		}
+		if nobj < 4 && r.Chance(1, 6) {
+			var es2 []rawEdge
+			for k := r.Range(0, n+1); k > 0; k-- {
+				es2 = append(es2, oneEdge())
+			}
+			ops = append(ops, newLine(kind, n, sc.apply(r, es2)))
 			nobj++
 		}
 		if nobj > 1 && r.Chance(1, 2) {
@@ -494,6 +687,7 @@ func historyCase(r *hx.Rand) (string, hx.Case) {
 			ops = append(ops, "cc", "mst")
 		}
 	}
+	ops = append(ops, kp.askAll(r)...)
 	if r.Chance(1, 8) {
 		ops = append(ops, panicQuery(r, kind, n))
 	}
@@ -526,7 +720,7 @@ func nearTieCase(r *hx.Rand) (string, hx.Case) {
 		j := r.Intn(i + 1)
 		es[i], es[j] = es[j], es[i]
 	}
-	ops := graphOps(kind, n, es)
+	ops := graphOpsCtor(kind, n, es, ctorSplit(r, len(es)))
 	if kind == "wdirected" {
 		for s := 0; s < n; s++ {
 			ops = append(ops, fmt.Sprintf("spt %d", s))
@@ -590,7 +784,7 @@ func bigCase(r *hx.Rand, kind string, shape string) hx.Case {
 	for k := r.Intn(3); k > 0; k-- {
 		es = append(es, rawEdge{r.Intn(n), r.Intn(n), w()})
 	}
-	ops := graphOps(kind, n, es)
+	ops := graphOpsCtor(kind, n, es, ctorSplit(r, len(es)))
 	far := n - 1
 	src := 0
 	if shape == "revpath" {
@@ -643,6 +837,22 @@ func edgeSequences(alpha []rawEdge, maxEdges int, f func([]rawEdge)) {
 	rec(nil)
 }
 
+// the edge alphabet of the exhaustive enumerations: every ordered pair (unordered for `undirected`); weighted kinds
+// get a weight from the pair and the orientation
+func exhaustiveAlphabet(kind string, n int) []rawEdge {
+	var alpha []rawEdge
+	for u := 0; u < n; u++ {
+		for v := 0; v < n; v++ {
+			if weighted(kind) {
+				alpha = append(alpha, rawEdge{u, v, (u*2 + v*3) % 4})
+			} else if kind == "directed" || u <= v {
+				alpha = append(alpha, rawEdge{u, v, 0})
+			}
+		}
+	}
+	return alpha
+}
+
 func Main(run *hx.Run) {
 	run.Stats.Rule = Rule
 	for _, f := range hx.CorpusFiles("C14") {
@@ -659,6 +869,11 @@ func Main(run *hx.Run) {
 	rh := run.R.Fork("history")
 	for k, n := 0, run.Scale(1200); k < n; k++ {
 		kind, c := historyCase(rh)
+		run.Do(kind, c, Exec)
+	}
+	rk := run.R.Fork("kept")
+	for k, n := 0, run.Scale(900); k < n; k++ {
+		kind, c := keptCase(rk)
 		run.Do(kind, c, Exec)
 	}
 	rt := run.R.Fork("neartie")
@@ -765,7 +980,121 @@ func Main(run *hx.Run) {
 				})
 			}
 		}
+		// constructor + AddEdge: all edge sequences with <= 3 edges on <= 3 vertices (<= 4 on <= 2), every way of
+		// giving a non-empty prefix to NewX(n, edges…) and the rest to AddEdge; state dump after the constructor and,
+		// with paths and the kind's algorithms, after every AddEdge
+		for _, kind := range kinds {
+			for n := 1; n <= 3; n++ {
+				alpha := exhaustiveAlphabet(kind, n)
+				maxE := 3
+				if n <= 2 {
+					maxE = 4
+				}
+				qs := []string{"dump", fmt.Sprintf("paths bfs %d", n-1), "paths dfs 0"}
+				switch kind {
+				case "directed":
+					qs = append(qs, "scc", "topo", "reverse")
+				case "undirected":
+					qs = append(qs, "cc")
+				case "wdirected":
+					qs = append(qs, "scc", "spt 0", "edges")
+				case "wundirected":
+					qs = append(qs, "mst", "edges")
+				}
+				sc := scale{}
+				if weighted(kind) {
+					sc.wexp = -40
+				}
+				edgeSequences(alpha, maxE, func(es []rawEdge) {
+					for k := 1; k <= len(es); k++ {
+						ops := []string{graphLine(kind, n, es[:k]), "dump"}
+						for _, e := range es[k:] {
+							ops = append(ops, edgeLine(kind, e))
+							ops = append(ops, qs...)
+						}
+						if k == len(es) {
+							ops = append(ops, qs[1:]...)
+						}
+						run.Do(kind, hx.Case{Header: sc.header(kind, n, "exhaustive-ctor"), Ops: ops}, Exec)
+					}
+				})
+			}
+		}
+		// kept results: all edge sequences with <= 3 edges on <= 3 vertices, cut at every point into the graph the
+		// results are computed on (built by the constructor) and the edges added afterwards; EVERY result object the
+		// kind has is kept (all strategies and sources), then the edges are added and traversals and algorithms run
+		// on the same graph, then every result is read (the *Paths also target by target), the first ones twice
+		for _, kind := range kinds {
+			for n := 1; n <= 3; n++ {
+				alpha := exhaustiveAlphabet(kind, n)
+				var keeps []string
+				var sels []int
+				for _, st := range strats {
+					for s := 0; s < n; s++ {
+						sels = append(sels, len(keeps))
+						keeps = append(keeps, fmt.Sprintf("keep paths %s %d", st, s))
+					}
+				}
+				keeps = append(keeps, "keep orders dfs", "keep orders dfsi", "keep orders bfs")
+				for v := 0; v < n; v++ {
+					keeps = append(keeps, fmt.Sprintf("keep adjof %d", v))
+				}
+				var later []string
+				for _, st := range strats {
+					later = append(later, fmt.Sprintf("paths %s %d", st, n-1), fmt.Sprintf("traverse %s 0 all", st))
+				}
+				later = append(later, "orders dfs")
+				switch kind {
+				case "directed":
+					keeps = append(keeps, "keep scc", "keep cycle", "keep topo")
+					later = append(later, "scc", "cycle", "topo")
+				case "undirected":
+					keeps = append(keeps, "keep cc")
+					later = append(later, "cc")
+				case "wdirected":
+					keeps = append(keeps, "keep scc")
+					for s := 0; s < n; s++ {
+						sels = append(sels, len(keeps))
+						keeps = append(keeps, fmt.Sprintf("keep spt %d", s))
+					}
+					later = append(later, "scc", fmt.Sprintf("spt %d", n-1))
+				case "wundirected":
+					keeps = append(keeps, "keep cc", "keep mst")
+					later = append(later, "cc", "mst")
+				}
+				otherQ := "cc"
+				if kind == "directed" || kind == "wdirected" {
+					otherQ = "scc"
+				}
+				var asks []string
+				for k := range keeps {
+					asks = append(asks, fmt.Sprintf("ask %d", k))
+				}
+				for _, k := range sels {
+					asks = append(asks, fmt.Sprintf("ask %d %d", k, n-1))
+				}
+				asks = append(asks, "ask 0", "ask 1")
+				sc := scale{}
+				if weighted(kind) {
+					sc.wexp = -40
+				}
+				edgeSequences(alpha, 3, func(es []rawEdge) {
+					for k := 0; k <= len(es); k++ {
+						ops := []string{graphLine(kind, n, es[:k])}
+						ops = append(ops, keeps...)
+						for _, e := range es[k:] {
+							ops = append(ops, edgeLine(kind, e))
+						}
+						ops = append(ops, later...)
+						// … and on an unrelated graph of the same type with the same edges
+						ops = append(ops, newLine(kind, n, es), "use 1", "paths dfs 0", "orders bfs", otherQ, "use 0")
+						ops = append(ops, asks...)
+						run.Do(kind, hx.Case{Header: sc.header(kind, n, "exhaustive-kept"), Ops: ops}, Exec)
+					}
+				})
+			}
+		}
 		run.Stats.Exhaustive = true
-		run.Stats.Extra["exhaustive_part"] = "all edge sequences (multigraphs incl. self-loops, parallel edges, every insertion order) with <=3 vertices and <=4 edges for the four graph kinds (undirected: unordered pairs); weighted kinds additionally all sequences of <=3 edges with weights in {0,1,2}; all queries, all sources; histories: all edge sequences with <=3 edges on <=3 vertices (<=4 on <=2) with every query, dump and reverse asked after every AddEdge on the same object"
+		run.Stats.Extra["exhaustive_part"] = "all edge sequences (multigraphs incl. self-loops, parallel edges, every insertion order) with <=3 vertices and <=4 edges for the four graph kinds (undirected: unordered pairs); weighted kinds additionally all sequences of <=3 edges with weights in {0,1,2}; all queries, all sources; histories: all edge sequences with <=3 edges on <=3 vertices (<=4 on <=2) with every query, dump and reverse asked after every AddEdge on the same object; constructor: the same edge sequences with every non-empty prefix given to NewX(n, edges...) and the rest to AddEdge, state dump, paths and the kind's algorithms after every AddEdge; kept results: all edge sequences with <=3 edges on <=3 vertices cut at every point, every result object of the kind (all strategies, all sources, Adj slices) kept on the graph built by the constructor, the remaining edges added and traversals/algorithms run on that graph and on a second, unrelated graph with the same edges, then every result read (Paths/ShortestPathTree also by target, the first results twice)"
 	}
 }
